@@ -47,3 +47,36 @@ package datasource
 //@ props C08
 //@ ensures typeis(result, *stringSource) && result.(*stringSource).Reader == result_of(strings.NewReader, 0)
 //@ at call strings.NewReader assert arg(a0) == s0
+
+// ---------------------------------------------------------------- the remaining sources
+
+// stdin is handed out as it is (and never closed by a provider: see hideCloseFileSource.Close).
+//@ func NewStdin
+//@ props C08
+//@ modifies nothing
+//@ ensures typeis(result, hideCloseFileSource)
+
+//@ func NewBuffer
+//@ props C08
+//@ modifies nothing
+//@ ensures typeis(result, buffer) && result.(buffer).Buffer == buf
+
+//@ func (b buffer) OpenSource
+//@ props C08
+//@ modifies nothing
+//@ ensures err == nil && wc == box(b)
+
+//@ func NewReader
+//@ props C08
+//@ modifies nothing
+//@ ensures typeis(result, *readerSource) && result.(*readerSource).source == r
+
+// A reader that can be closed is handed out itself; one that can seek keeps being seekable (several passes need it).
+//@ func (r *readerSource) OpenSource
+//@ props C08
+//@ nilsafe
+//@ requires r != nil
+//@ modifies nothing
+//@ ensures [never-an-error] err == nil
+//@ ensures [a-closable-reader-is-handed-out-itself] imp(typeis(r.source, io.ReadCloser), rc == r.source)
+//@ ensures [a-seekable-reader-stays-seekable] imp(!typeis(r.source, io.ReadCloser) && typeis(r.source, io.ReadSeeker), calls(ioutil.NopCloser) == 0)
